@@ -252,4 +252,29 @@ def run (cmp : Nat → Nat → Int) (m : OrdMap) : List (Op × Bool) → List Ou
     let rs := run cmp r.2 rest
     (r.1 :: rs.1, rs.2)
 
+/-- sessions of a set: histories of set calls interleaved with iterator sessions -/
+inductive Segment where
+  | calls (ops : List (Op × List Bool))
+  | iterate (prog : List OrdMap.IterOp)
+  deriving Repr, DecidableEq
+
+/-- what the C API hands back call by call -/
+def apiOuts : List Op → List Out → List Out
+  | op :: ops, o :: os => apiOut op o :: apiOuts ops os
+  | _, _ => []
+
+/-- the ideal set through a session, results as the C API hands them back (a set iterator yields the
+element only; its `remove` hands back what the table stored) -/
+def runSession (cmp : Nat → Nat → Int) (refused : List Bool → Bool) (m : OrdMap) :
+    List Segment → List (List Out) × OrdMap
+  | [] => ([], m)
+  | .calls ops :: rest =>
+    let r := run cmp m (ops.map fun p => (p.1, refused p.2))
+    let rs := runSession cmp refused r.2 rest
+    (apiOuts (ops.map (·.1)) r.1 :: rs.1, rs.2)
+  | .iterate prog :: rest =>
+    let r := (OrdMap.Cursor.init m).run m prog
+    let rs := runSession cmp refused r.2.2 rest
+    (r.1.map (fun o => { st := o.st, val := o.val }) :: rs.1, rs.2)
+
 end CC.Spec.OrdSet
